@@ -460,6 +460,7 @@ func vfc28BuildBlock(parent string, rng *rand.Rand, wantSegs int, mint, maxt int
 	headOpts := tsdb.DefaultHeadOptions()
 	headOpts.ChunkDirRoot = filepath.Join(parent, "vfhead")
 	headOpts.ChunkRange = 10000000000
+	headOpts.StripeSize = 64 // default 16384 stripes make NewHead slow under -race; irrelevant for the block written
 	h, err := tsdb.NewHead(nil, nil, nil, nil, headOpts, nil)
 	if err != nil {
 		return blk, errors.Wrap(err, "head")
